@@ -305,7 +305,7 @@ pub fn gen_doc_once(rng: &mut Rng, ix: &SchemaIx, o: &OpOpts) -> ExecDoc {
     // fragment pool
     if o.fragments {
         let composites: Vec<String> = ix.order.iter().filter(|t| ix.is_composite(t)).cloned().collect();
-        let nf = rng.below(4);
+        let nf = if rng.chance(1, 4) { 3 + rng.below(4) } else { rng.below(4) };
         for k in 0..nf {
             let cond = composites[rng.below(composites.len())].clone();
             let mut sc = Scope { vars: vec![] };
